@@ -5,6 +5,7 @@
  */
 #include "vdump.h"
 #include "hio.h"
+#include "rng.h"
 #include <unistd.h>
 
 static unsigned long cb_read(void *d, unsigned long s, unsigned long n, void *p) { return fread(d, s, n, (FILE *)p); }
@@ -88,6 +89,8 @@ static int load_mode(void)
 			if (ret == 0) {
 				uint64_t hsh = VF_FNV0; int i; struct xmp_frame_info fi;
 				vd_dump_module(stdout, c, 7);
+				/* the context's generator is seeded from time(NULL): fix it, the digest is compared across runs */
+				libxmp_set_random(&((struct context_data *)c)->rng, 7);
 				if (xmp_start_player(c, 8000, 0) == 0) {
 					for (i = 0; i < 40 && xmp_play_frame(c) == 0; i++) { xmp_get_frame_info(c, &fi); hsh = vf_fnv(hsh, fi.buffer, fi.buffer_size); }
 					xmp_end_player(c);
